@@ -265,7 +265,7 @@ def run(ctx, proof):
                          "expressions; every minimised automaton of the real library (main and within-word) goes through the verified "
                          "word-determinism checker; the grammar and its `|` variant are decided equivalent with levels erased. "
                          "non-trivial = grammar contains `||` and both forms are accepted")
-    n = 12000 if ctx.thorough() else 700
+    n = 6000 if ctx.thorough() else 700
     parts = special_cases(ctx.rng, n // 2) + random_parts(ctx.rng, n)
     for i in range(0, len(parts), 600):
         analyse(ctx, parts[i:i + 600])
@@ -274,12 +274,12 @@ def run(ctx, proof):
     # expression in a branch that is not the last one, prefixes of the later branches' candidates; the candidates bash
     # offers must be those Spec.Complete prescribes
     from . import c01
-    c01.check_grammars(ctx, 160 if ctx.thorough() else 24, own="C09", gen="fallback_gen")
+    c01.check_grammars(ctx, 120 if ctx.thorough() else 24, own="C09", gen="fallback_gen")
     # ... and several within-word expressions of one shape whose values sit on different `||` levels (candidates for
     # sharing one table-reading function in the script)
-    c01.check_grammars(ctx, 120 if ctx.thorough() else 16, own="C09", gen="twin_gen")
+    c01.check_grammars(ctx, 80 if ctx.thorough() else 16, own="C09", gen="twin_gen")
     # ... and `||` chains of three and four alternatives whose candidates share their first letters
-    c01.check_grammars(ctx, 120 if ctx.thorough() else 16, own="C09", gen="chain_gen")
+    c01.check_grammars(ctx, 80 if ctx.thorough() else 16, own="C09", gen="chain_gen")
     ctx.extra["programs"] = ctx.evaluations
 
 
